@@ -89,6 +89,38 @@ theorem checkTable_get {P : PointPred} (hc : checkTable P = true) (hlen : rows.l
     simp [List.getD, List.getElem?_eq_getElem (show idx < rows.length by omega)]
   rw [hget]; exact this
 
+theorem checkRows_append (P : PointPred) (total : Nat) : ∀ (a b : List Nat) (k : Nat), a.length ≤ k →
+    checkRows P total (a ++ b) k = (checkRows P total a k && checkRows P total b (k - a.length)) := by
+  intro a
+  induction a with
+  | nil => intro b k _; simp [checkRows]
+  | cons n a ih =>
+    intro b k hk
+    cases k with
+    | zero => simp at hk
+    | succ k =>
+      simp only [List.cons_append, checkRows, List.length_cons, Nat.add_sub_add_right]
+      rw [ih b k (by simpa using hk), Bool.and_assoc]
+
+/-- the table check in three parts (each part is one kernel evaluation of about a third of the points) -/
+theorem checkTable_thirds (P : PointPred) (m1 m2 : Nat) (h12 : m1 ≤ m2) (h2 : m2 ≤ nRows)
+    (hlen : rows.length = nRows)
+    (hA : checkRows P nRows (rows.take m1) nRows = true)
+    (hB : checkRows P nRows ((rows.drop m1).take (m2 - m1)) (nRows - m1) = true)
+    (hC : checkRows P nRows (rows.drop m2) (nRows - m2) = true) : checkTable P = true := by
+  unfold checkTable
+  have e1 : rows = rows.take m1 ++ ((rows.drop m1).take (m2 - m1) ++ rows.drop m2) := by
+    have : rows.drop m2 = (rows.drop m1).drop (m2 - m1) := by
+      rw [List.drop_drop]; congr 1; omega
+    rw [this, List.take_append_drop, List.take_append_drop]
+  have l1 : (rows.take m1).length = m1 := by rw [List.length_take]; omega
+  have l2 : ((rows.drop m1).take (m2 - m1)).length = m2 - m1 := by
+    rw [List.length_take, List.length_drop]; omega
+  rw [e1, checkRows_append _ _ _ _ _ (by omega), l1,
+    checkRows_append _ _ _ _ _ (by omega), l2, hA, hB]
+  have : nRows - m1 - (m2 - m1) = nRows - m2 := by omega
+  rw [this, hC]; rfl
+
 /-- the model's prediction for a table point, given the live Host verdict -/
 def modelOutcome (p : Point) : Nat :=
   outcomeCode (dispatch { evalex := p.evalex, pinOn := p.pinOn } 0
